@@ -415,8 +415,10 @@ def shard_walk(m, meta, budget=600):
         screen.clear_images = lambda *a, **k: None
         screen._ti_clear_images()
         got = set(screen._ti_image_cviews)
-        if got != want:
-            pos = lambda st: sorted((r, c, tl, tt, cs, rs) for _, r, c, tl, tt, cs, rs in st)
+        # the layout of the key tuple is the library's own business: a view is compared as (its canvas, the numbers recorded for it)
+        norm = lambda st: sorted((id(next(x for x in k if isinstance(x, UrwidImageCanvas))), tuple(sorted(x for x in k if isinstance(x, int)))) for k in st)
+        if norm(got) != norm(want):
+            pos = lambda st: sorted(tuple(x for x in k if isinstance(x, int)) for k in st)
             problems.append({"columns": [[(wd, h, img) for h, img in shapes[ci]] for ci, wd in zip(combo, widths)], "recorded": pos(got), "urwid": pos(want)})
             if len(problems) >= 3:
                 break
